@@ -147,7 +147,24 @@ def execute(case, ctx):
         ctx.count("probe_program_with_aborting_events")
     comb, rc = sim.run_session(ctx, driver, s0, {"flags": flags(pend), "fmt": fmt})
     if not ok(rc):
-        out["discards"]["combined-session-did-not-complete(C18)"] = 1
+        if sim.session_completed(driver, rc):
+            out["discards"]["combined-session-did-not-complete(C18)"] = 1
+            return out
+        # the session that approves everything together died at session end (nothing written).  If approving the same categories one at a time
+        # goes through, the two ways do not lead to the same program: that is this property's business, not only C18's
+        cur, good = s0, True
+        for c in pend:
+            cur, r = sim.run_session(ctx, driver, cur, {"flags": flags([c]), "fmt": fmt})
+            if not sim.session_completed(driver, r):
+                good = False
+                break
+        if good and trees(cur) != trees(s0):
+            cv = sim.completion_violation(driver, rc, f"pending={pend}")
+            out["violations"].append({"clause": "confluence", "sig": "together-dies-where-one-at-a-time-completes:" + cv["sig"].split(":", 1)[1],
+                                      "detail": f"driver={driver} fmt={fmt_tag(fmt)}: approving {pend} together ends in an internal error (nothing is written), approving them one at a time ({' then '.join(pend)}) completes\n"
+                                                + cv["detail"][-1500:] + "\n--- before\n" + s0[sorted(k for k in s0 if k.startswith('test_'))[0]].decode('utf-8', 'replace')[:900]})
+        else:
+            out["discards"]["combined-session-did-not-complete(C18)"] = 1
         return out
     want = trees(comb)
     perms = list(itertools.permutations(pend))
